@@ -480,6 +480,24 @@ def keyword_cases():
     add("einsum optimize=", "np.einsum('ij,kj->ik', x, x, optimize=True)", a23)
     add("tensordot axes=0", "np.tensordot(x, x, 0)", a3)
     add("take with negative and repeated indices", "np.take(x, [0, -1, 0])", a3)
+    # conversions that may be short-cut as "nothing to do": the result must stay a function of x
+    w3 = onp.array([0.5, -1.5, 2.0, 0.25])
+    for spell in ("x.astype(float)", "x.astype('float64', copy=False)", "x.astype(x.dtype, copy=False)", "x.astype(x.dtype)", "x.astype(onp.float64, order='C')",
+                  "x.astype(float, casting='safe', copy=True)", "np.asarray(x, dtype=float)", "np.asarray(x, dtype=x.dtype)", "np.array(x, dtype='float64', copy=True)",
+                  "np.asarray(x)", "np.ascontiguousarray(x)" if hasattr(np, "ascontiguousarray") else "np.asarray(x)", "np.copy(x)", "x.copy()", "x.view()" if False else "x + 0",
+                  "x.reshape(x.shape)", "x.reshape(-1)", "np.reshape(x, x.shape)", "x.squeeze()", "x.ravel()", "x.T", "x.real", "np.real(x)", "x.conj()", "np.conjugate(x)",
+                  "np.real_if_close(x)", "np.atleast_1d(x)", "np.broadcast_to(x, x.shape)", "x[...]", "x[:]", "x[()]", "+x", "np.positive(x)" if hasattr(np, "positive") else "+x"):
+        add("identity-like conversion", "np.sin(%s) * w3 + x ** 2" % spell, a3, dict(w3=w3))
+    # scalar-type constructors of the inexact kinds called on a differentiated scalar: a loud failure or the identity's derivative, never a constant
+    x0 = onp.array(0.7)
+    for tname in sorted(n_ for n_ in dir(onp) if isinstance(getattr(onp, n_), type) and issubclass(getattr(onp, n_), onp.inexact) and hasattr(np, n_)):
+        try:
+            getattr(onp, tname)(0.7)
+        except Exception:
+            continue                                   # abstract scalar types
+        add("scalar type constructor", "np.real(np.%s(x)) * np.sin(x) + x ** 2" % tname, x0)
+    for tname in ("float", "complex"):
+        add("builtin scalar conversion", "np.real(%s(x)) * np.sin(x) + x ** 2" % tname, x0)
     return C
 
 
